@@ -128,6 +128,26 @@ def shared_state(ctx: Ctx, roots: Iterable[str], what: str) -> None:
                 ctx.bad("R-STATE", f, f"{what}: {f.qualname} consults module-level state '{name}'", f"{detail} (changed at run time by: {'; '.join(changes[:2])})", node=f.node)
             else:
                 raise AnalysisError(f"{f.fq}: module-level state '{name}' ({'; '.join(changes[:2])}) is consulted in a way that is not recognised: {detail}")
+    # memoised functions: a functools cache is process-wide state keyed by == / hash of the arguments
+    for fq in sorted(reach):
+        f = p.functions.get(fq)
+        if f is None or f.module.is_test:
+            continue
+        memo = [d for d in f.decorators() if d.split("(")[0].split(".")[-1] in ("lru_cache", "cache", "cached_property") and d.split("(")[0].split(".")[-1] != "cached_property"]
+        if not memo:
+            continue
+        n_hits += 1
+        params = set(f.param_names())
+        typed = [src(n, 60) for n in body_walk(f.node) if isinstance(n, ast.Call) and isinstance(n.func, ast.Name) and n.func.id in ("isinstance", "type", "issubclass") and n.args
+                 and any(isinstance(x, ast.Name) and x.id in params for x in ast.walk(n.args[0]))]
+        ctor = [src(n, 60) for n in body_walk(f.node) if isinstance(n, ast.Call) and isinstance(n.func, ast.Attribute) and n.func.attr == "__new__"
+                and any(isinstance(x, ast.Name) and x.id in params for a in n.args[1:] for x in ast.walk(a))]
+        if typed or ctor:
+            ctx.bad("R-STATE", f, f"{what}: {f.qualname} is memoised (@{memo[0]})",
+                    f"the cache is keyed by == / hash of the arguments, which identifies 1, 1.0, True and Fraction(1) (and 0.046875 with Fraction(3, 64)), but the function's result depends on the "
+                    f"argument's type ({(typed + ctor)[0]}): a call answers with what an earlier call with an equal argument of another type produced", node=f.node)
+        else:
+            raise AnalysisError(f"{f.fq}: memoised with @{memo[0]}; whether equal arguments always give interchangeable results is not decided here")
     ctx.floor(f"functions examined for shared state ({what})", n_funcs, 1)
     if not n_hits:
         ctx.ok("R-STATE", (p.func(next(iter(roots))).module.name, ""), f"{what}: no function in the call tree reads module-level state that is changed at run time", f"{n_funcs} functions, {len(state)} state objects in the package")
